@@ -373,8 +373,9 @@ def run(ctx):
     for cls in (ao, copt, arg):
         for name, m in cls.methods.items():
             for c in q.calls(m):
-                if isinstance(c.func, ast.Attribute) and c.func.attr == "match" and isinstance(c.func.value, ast.Name) and c.func.value.id == "re" and c.args and isinstance(c.args[0], ast.Constant):
-                    pats["%s.%s" % (cls.name, name)] = (c.args[0].value, m, c)
+                pat_ = q.regex_match_pattern(m, c)
+                if pat_ is not None:
+                    pats["%s.%s" % (cls.name, name)] = (pat_, m, c)
     ctx.require(len(pats) >= 4, "name patterns not found")
     def kind(pat):
         return "short" if "{" not in pat and "+" not in pat and "*" not in pat else "long"
@@ -530,32 +531,52 @@ def run(ctx):
                  "the builtin conversion's result, or the input itself under an isinstance test for exactly that type (bool is not int: 1 is not True)", reference=4)
     smod_ = p.modules["clikit.utils.string"]
     TYPES = {"parse_boolean": "bool", "parse_int": "int", "parse_float": "float"}
-    for fname, tname in sorted(TYPES.items()):
-        fn = smod_.functions.get(fname)
-        ctx.require(fn is not None, "utils.string.%s missing" % fname)
+    def _judge_returns(top, fn, tname, bound, depth=0):
+        """bound: {param of fn: builtin type name it is bound to on this call chain}"""
         cfg = ctx.cfg(fn)
-        prm0 = fn.params[0]
+        prm0 = fn.params[0] if fn.params else None
         for ret in q.returns(fn):
             v = ret.value
+            where = fn.short if fn is top else "%s (for %s)" % (fn.short, top.short)
             if v is None:
-                r.ok("%s: bare return (nullable)" % fn.short)
+                r.ok("%s: bare return (nullable)" % where)
                 continue
             if isinstance(v, ast.Constant) and type(v.value).__name__ == tname:
-                r.ok("%s: %s" % (fn.short, norm(ret)))
+                r.ok("%s: %s" % (where, norm(ret)))
                 continue
-            if isinstance(v, ast.Call) and isinstance(v.func, ast.Name) and v.func.id == tname:
-                r.ok("%s: %s" % (fn.short, norm(ret)))
+            if isinstance(v, ast.Call) and isinstance(v.func, ast.Name) and (v.func.id == tname or bound.get(v.func.id) == tname):
+                r.ok("%s: %s" % (where, norm(ret)))
+                continue
+            if isinstance(v, ast.Call) and isinstance(v.func, ast.Name) and v.func.id in smod_.functions and v.func.id != fn.name and depth < 3:
+                # delegation to a helper of the module: its returns are judged with the parameters bound as at this call
+                h = smod_.functions[v.func.id]
+                b2 = {}
+                for i, a in enumerate(v.args):
+                    if i < len(h.params) and isinstance(a, ast.Name):
+                        if a.id in ("int", "float", "bool"):
+                            b2[h.params[i]] = a.id
+                        elif a.id in bound:
+                            b2[h.params[i]] = bound[a.id]
+                for kw in v.keywords:
+                    if kw.arg and isinstance(kw.value, ast.Name) and kw.value.id in ("int", "float", "bool"):
+                        b2[kw.arg] = kw.value.id
+                _judge_returns(top, h, tname, b2, depth + 1)
                 continue
             if isinstance(v, ast.Name) and v.id == prm0:
                 ok_ = False
                 for rn in cfg.nodes_of(ret):
                     g = guarded_by(cfg, rn, lambda e: isinstance(e, ast.Call) and isinstance(e.func, ast.Name) and e.func.id == "isinstance" and len(e.args) == 2
-                                   and isinstance(e.args[0], ast.Name) and e.args[0].id == prm0 and isinstance(e.args[1], ast.Name) and e.args[1].id == tname, polarity=True)
+                                   and isinstance(e.args[0], ast.Name) and e.args[0].id == prm0 and isinstance(e.args[1], ast.Name) and (e.args[1].id == tname or bound.get(e.args[1].id) == tname), polarity=True)
                     ok_ = g is not None
                 if ok_:
-                    r.ok("%s: input returned under isinstance(%s, %s)" % (fn.short, prm0, tname))
+                    r.ok("%s: input returned under isinstance(%s, %s)" % (where, prm0, tname))
                     continue
-            r.fail(fn, ret, norm(ret), "%s can return `%s`, which is not known to be a %s: a %s-typed option or argument hands the handler a value of another type" % (fn.short, norm(v), tname, tname.upper() if tname != "bool" else "BOOLEAN"))
+            r.fail(fn, ret, norm(ret) if fn is top else "%s for %s" % (norm(ret), top.name), "%s can return `%s`, which is not known to be a %s: a %s-typed option or argument hands the handler a value of another type" % (where, norm(v), tname, tname.upper() if tname != "bool" else "BOOLEAN"))
+
+    for fname, tname in sorted(TYPES.items()):
+        fn = smod_.functions.get(fname)
+        ctx.require(fn is not None, "utils.string.%s missing" % fname)
+        _judge_returns(fn, fn, tname, {})
 
     # ---------------------------------------------------------------- R12
     r = ctx.rule("C07-R12", "KEY", "an alias is filed by what it is after its dash prefix was removed: the value whose length decides short / long is the value that is "
